@@ -51,6 +51,7 @@ FAMILIES = ['cpa', 'cpa_alt', 'dpa', 'anova', 'nicv', 'snr', 'mia', 'template_bu
 COQ_FAMILY = {'cpa': 'FCpa', 'cpa_alt': 'FCpaAlt', 'dpa': 'FDpa', 'anova': 'FAnova', 'nicv': 'FNicv', 'snr': 'FSnr', 'mia': 'FMia',
               'template_build': 'FTemplBuild', 'template_match': 'FTemplMatch', 'template_dpa_match': 'FTemplDpa'}
 PARTITIONED = {'anova', 'nicv', 'snr', 'mia', 'template_build'}
+PARTITIONED_OR_TDPA = PARTITIONED | {'template_dpa_match'}
 ANALYSIS_FAMILIES = ['cpa', 'dpa', 'anova', 'nicv', 'snr', 'mia', 'template_build']
 
 HUGE = 10 ** 6
@@ -66,8 +67,23 @@ def _rs(spec):
     return np.random.RandomState((spec['vseed'] * 7919 + spec['id'] * 104729) % (2 ** 31))
 
 
-def good_data(fam, cfg, rs, n, w):
+def good_data(fam, cfg, rs, n, w, loud=False):
+    """Intermediate data of a batch.  loud = values that differ visibly from those of the accepted batches (other extremes, other
+    classes, a varying word where the accepted batches are constant): used for every batch that is not plainly 'good', so that
+    anything leaking from a refused batch changes min/max/sums/counters and hence a later result."""
     style = cfg.get('style', 'small')
+    if style == 'constcol' and fam in ('cpa', 'cpa_alt'):
+        d = rs.randint(0, 16, (n, w)).astype('uint8')
+        if loud:
+            d = (d + 100).astype('uint8')
+        else:
+            d[:, 0] = 5                       # a constant data word over all accepted batches
+        return d
+    if loud and fam in ('cpa', 'cpa_alt'):
+        return (rs.randint(0, 16, (n, w)) + 100).astype('uint8')
+    if loud and fam in PARTITIONED_OR_TDPA:
+        lo, hi = (4, 9) if style != 'big' else (41, 64)
+        return rs.randint(lo, hi, (n, w)).astype('uint8')
     if fam == 'dpa':
         d = rs.randint(0, 2, (n, w))
         d[0, :] = 1          # both classes present in every word (no division by zero noise in the results)
@@ -84,12 +100,33 @@ def good_data(fam, cfg, rs, n, w):
     return rs.randint(0, hi, (n, w)).astype('uint8')
 
 
+CONSTS = {'0.3': 0.3, '0.7': 0.7, '1/3': 1.0 / 3.0}
+
+
+def gen_traces(cfg, rs, shape, loud):
+    """Traces of a batch.  Default: small integers (exact sums).  style 'constcol': float traces whose last column is a
+    constant that is NOT exact in float32 (0.3, 0.7, 1/3) in every accepted batch - the accumulators alone then leave a tiny
+    positive or negative variance there - and varies, with other extremes, in every other batch."""
+    if cfg.get('style') == 'constcol':
+        t = rs.normal(1.0, 0.3, shape)
+        if loud:
+            t = t * 40.0 - 20.0
+        else:
+            t[:, -1] = CONSTS[cfg['const']]
+        return t.astype(cfg.get('tdtype', 'float32'))
+    t = rs.randint(0, 20, shape)
+    if loud:
+        t = t + 200
+    return t.astype('uint8')
+
+
 def build_batch(fam, cfg, spec):
     """-> (traces, data, facts).  `kind` is only a generator device: the facts are read off the arrays that are built."""
     rs = _rs(spec)
     n, T, W, kind = spec['n'], spec['T'], spec['W'], spec['kind']
-    traces = rs.randint(0, 20, (n, T)).astype('uint8')
-    data = good_data(fam, cfg, rs, n, W)
+    loud = kind != 'good'
+    traces = gen_traces(cfg, rs, (n, T), loud)
+    data = good_data(fam, cfg, rs, n, W, loud)
     env = {'mem_ok': True, 'user': False}
     if kind == 'good':
         pass
@@ -104,20 +141,21 @@ def build_batch(fam, cfg, spec):
     elif kind == 'traces_1d':
         traces = traces[:, 0].copy()
     elif kind == 'traces_3d':
-        traces = rs.randint(0, 20, (n, T, 2)).astype('uint8')
+        traces = gen_traces(dict(cfg, style=None), rs, (n, T, 2), True)
     elif kind == 'empty':
         traces, data = traces[:0], data[:0]
     elif kind == 'tlen':
-        traces = rs.randint(0, 20, (n, T + 1 + spec['id'] % 2)).astype('uint8')
+        traces = gen_traces(cfg, rs, (n, T + 1 + spec['id'] % 2), True)
     elif kind == 'tlen_short':
-        traces = traces[:, :max(2, T - 1)] if T > 2 else rs.randint(0, 20, (n, T + 2)).astype('uint8')
+        traces = traces[:, :max(2, T - 1)] if T > 2 else gen_traces(cfg, rs, (n, T + 2), True)
     elif kind == 'words':
-        data = good_data(fam, cfg, rs, n, W + 2)
+        data = good_data(fam, cfg, rs, n, W + 2, True)
     elif kind == 'words1':
-        data = good_data(fam, cfg, rs, n, 1)
+        data = good_data(fam, cfg, rs, n, 1, True)
     elif kind == 'dpa_nonbinary':
         data = rs.randint(0, 6, (n, W)).astype('uint8')
         data[0, 0] = 5
+        data[-1, -1] = 0
     elif kind == 'data_int16':
         data = data.astype('int16')
     elif kind == 'data_uint16':
@@ -153,6 +191,8 @@ def build_batch(fam, cfg, spec):
         traces = np.full((n, T), 7, dtype='uint8')
     elif kind == 'user':
         env['user'] = True
+    elif kind == 'loud_good':       # an ordinary batch with the loud values (marked batches of a run)
+        pass
     else:
         raise ValueError(kind)
     return traces, data, facts_of(traces, data, env, spec)
@@ -363,7 +403,7 @@ def run_container_arrays(fam, cfg, specs):
     trs, das, tags, facts = [], [], [], []
     for s in specs:
         kind = s['kind']
-        base = dict(s, kind='good')
+        base = dict(s, kind='good' if kind in ('good', 'mem', 'mia_const') else 'loud_good')
         t, d, f = build_batch(fam, cfg, base)
         tag = np.zeros((t.shape[0], 1), dtype='uint8')
         if kind == 'user':                  # the selection function raises on this batch
@@ -696,6 +736,17 @@ class UpdKind(Kind):
                 odd = [k for k in odd if k != 'words1']
             if odd and self.via == 'update':
                 yield self.case(fam, cfg, history_with_insertions(fam, vseed, T, W, goods[:2], {1: odd, 2: laters[:2]}, op=self.via))
+            # --- leak detectors (CPA, alternative CPA, DPA): float traces with a column that is constant, and not exact in float32,
+            #     over all accepted batches (and a constant data word for CPA); every refused batch varies there
+            if fam in ('cpa', 'cpa_alt', 'dpa'):
+                for cname in CONSTS:
+                    for tdtype in ('float32', 'float64'):
+                        cc = dict(cfg, style='constcol', const=cname, tdtype=tdtype)
+                        dt = ['data_float', 'data_int16'] if (fam == 'dpa' and self.via == 'update') else ['traces_str']
+                        first = ['traces_3d', 'row_mismatch'] + ([('user', {'user_how': 'sf'})] if self.via != 'update' else ['traces_list'])
+                        yield self.case(fam, cc, history_with_insertions(
+                            fam, vseed, T, W, [200, 150, 100],
+                            {0: first, 1: ['words', 'tlen'], 2: dt + ['words'], 3: ['words', 'tlen_short', 'traces_str']}, op=self.via))
             # --- configurations
             if fam in ('anova', 'snr', 'mia') and self.via == 'update':
                 big = dict(cfg, style='big')
